@@ -264,3 +264,22 @@ prop("C16", shards=16,
           "unequal passwords or >= 1 exchange. Distinct: hash of the JSON case.",
      level_text="Sampled frames, lengths and sessions; the login matrix is small and densely covered.",
      level_note="Trusted: the reference frame writer in the test (10 lines), loopback TCP of the sandbox (DialRCON hard-codes TCP).")
+
+prop("C17", shards=16,
+     technique="rapid property-based testing over a generated component grammar: JSON and NBT round trips, independent NBT reader on the emitted bytes, reference plain-text renderer",
+     rule="Components generated from the grammar to depth 4: text (empty, quotes, section-sign codes in both cases incl. §k/§K and an "
+          "unknown §z, percent signs, non-ASCII, newlines), each style flag, colour, font, insertion, click event, hover event "
+          "(contents nil / string / map of strings, legacy value component), translate (unknown key; known en-us keys chosen by "
+          "arity from those whose template only has %s) with 0..5 arguments that are all components or all strings, nested extras. "
+          "Oracle: json Unmarshal(Marshal(m)) == m, JsonMessage packet field round trip, Message.WriteTo bytes decoded by "
+          "harness/ref/nbt as exactly one network-format compound holding text or translate and only known keys, "
+          "Message.ReadFrom(WriteTo(m)) == m consuming exactly the bytes (sentinel); equality with nil == empty and string "
+          "argument == text component; String()/ClearString() never panic; ClearString == reference rendering (codes removed, "
+          "arguments substituted in order) whenever the reference models the translation. C17Shape: bare string / compound / "
+          "list of compounds / list of strings accepted as components in NBT and JSON with the expected content; chat.Type "
+          "(id, sender, optional target) round trips with and without target, exactly consumed. Non-trivial: depth >= 2, an event, "
+          "or a translate with >= 1 argument. Distinct: hash of the JSON case.",
+     level_text="Sampled components from a grammar with every field optional; bounded depth.",
+     level_note="Trusted: harness/ref/nbt, encoding/json, the en-us table (only to pick keys and read their templates). Mixed "
+                "string/component argument lists are not generated (NBT lists are homogeneous). Templates with positional or non-%s "
+                "verbs are outside the rendering clause.")
